@@ -69,7 +69,7 @@ func RunAllAnalyses(files map[string]string, only string) []StepResult {
 		name string
 		o    TaintOpts
 	}{
-		{"taint-eager", TaintOpts{Sanitizers: []string{"^sanitize1$"}, Validators: []string{"^validate1$", "^validateE$"}}},
+		{"taint-eager", TaintOpts{Sanitizers: []string{"^sanitize1$"}, Validators: []string{"^validate1$", "^validateE$", "^validateT$"}}},
 		{"taint-ondemand", TaintOpts{OnDemand: true}},
 		{"taint-escape", TaintOpts{UseEscape: true}},
 		{"taint-fieldsens", TaintOpts{FieldSensitive: true}},
